@@ -34,6 +34,9 @@ func init() {
 		ID: "C04",
 		Gen: func(r *rt.Rand, tier string, idx int) *world.Scenario {
 			o := writeOpts{future: true}
+			if idx%5000 == 77 {
+				return genRingLap(r)
+			}
 			if idx%4 == 3 {
 				o.faults = "err"
 			}
@@ -59,4 +62,31 @@ func init() {
 		Epilogue: writesEpilogue,
 		Check:    checkC04,
 	})
+}
+
+// genRingLap: the sequencer's slot ring has 100 000 slots (a constant of the backend). One failed and
+// one successful write, then a full lap of further revisions on the same node: whatever an earlier
+// event left in its slot meets the sequencer again exactly one lap later. Long (about 100 000 writes),
+// therefore rare (one run in 5000).
+func genRingLap(r *rt.Rand) *world.Scenario {
+	sc := &world.Scenario{Prefix: prefix, InitRev: pickInitRev(r), Seed: r.Uint64(), Engine: "memkv", Class: "slot-ring-full-lap", Stick: 0.9}
+	sc.Inactive = []string{"kv.get", "kv.get.ret", "kv.commit", "kv.commit.ret", "kv.parts", "kv.del", "kv.del.ret", "kv.delcur", "kv.delcur.ret",
+		"seq.cache", "seq.bcast", "watch.subscribed", "watch.cacheread", "hub.recv", "client.next"}
+	k := keyUniverse[r.Intn(len(keyUniverse))]
+	var cl world.Client
+	cl.Ops = append(cl.Ops, world.Op{K: "create", Key: k, Val: "lap0"})
+	for i := 0; i < 2+r.Intn(3); i++ {
+		switch i % 3 {
+		case 0:
+			cl.Ops = append(cl.Ops, world.Op{K: "create", Key: k, Val: "dup"}) // fails: the key exists
+		case 1:
+			cl.Ops = append(cl.Ops, world.Op{K: "update", Key: k, Val: "stale", Rev: world.Rev{M: "stale", N: 1}})
+		case 2:
+			cl.Ops = append(cl.Ops, world.Op{K: "update", Key: k, Val: "ok", Rev: world.Rev{M: "known"}})
+		}
+	}
+	cl.Ops = append(cl.Ops, world.Op{K: "burst", Key: k, Val: "b", Limit: 100010 + int64(r.Intn(40)), W: 1}) // W: every write is sequenced before the next one starts
+	sc.Clients = []world.Client{cl}
+	sc.MaxSteps = 20000000
+	return sc
 }
